@@ -354,6 +354,11 @@ func genHostsLine(rng *rand.Rand) string {
 	for i := 0; i < nn; i++ {
 		toks = append(toks, genHostName(rng))
 	}
+	if nn > 0 && rng.IntN(15) == 0 {
+		// a name spelled exactly like the line's own address ("0.0.0.0 0.0.0.0 blocked.example"),
+		// or built from it
+		toks[1+rng.IntN(nn)] = toks[0] + pick(rng, "", "", ".lan", ".")
+	}
 	var sb strings.Builder
 	if rng.IntN(4) == 0 {
 		sb.WriteString(genSep(rng))
